@@ -10,14 +10,18 @@ def run(ctx):
     ctx.prove(families=("vaa",))
     # besides the round trips: the stability laws - the wire bytes, signing body and digest of a VAA that is being held stay what
     # they were while other VAAs are encoded ("no accepted input is silently altered" also between two calls)
-    vaacommon.run_vaa(ctx, "c05", ("enc", "dec"), classify,
-                      also=lambda ln: (ln.startswith("eq ") and ln.split(" ", 3)[2] in (
-                          "wire-bytes-not-stable", "signing-body-not-stable", "digest-not-stable", "digest-not-double-keccak-of-held-body"))
+    vaacommon.run_vaa(ctx, "c05", ("enc", "dec", "dseq"), classify,
+                      also=lambda ln: (ln.startswith("eq ") and (ln.split(" ", 3)[2] in (
+                          "wire-bytes-not-stable", "signing-body-not-stable", "digest-not-stable", "digest-not-double-keccak-of-held-body")
+                          or ln.split(" ", 3)[2].startswith("decoded-values-aliased")))
                       or (ln.startswith("ne ") and ln.split(" ", 3)[2].startswith(("encoding-ignores-field-change", "digest-ignores-field-change"))))
     ctx.cov["rule"] = ("enc: random VAAs (payload 1..4096 bytes incl. 999/1000/1001, thorough up to 200000; 0..255 signatures; boundary "
                        "field values; signature counts 126/127/128/129/192/254/255 every round; a Marshal error is a result: in-domain-vaa-not-encodable) "
                        "through the real Marshal+Unmarshal; dec: every truncation point of small encodings, header/"
-                       "length-byte/bit-flip/append mutations and random bytes through the real Unmarshal (panics recovered). "
+                       "length-byte/bit-flip/append mutations and random bytes through the real Unmarshal (panics recovered); dseq: decode HISTORIES - runs of "
+                       "4..6 equal-length messages (random, one field / one payload bit changed, repeated, undecodable ones in between) decoded one after "
+                       "another from ONE reused buffer (decode-depends-on-earlier-decode); two callers decoding the same bytes from their own copies, the first "
+                       "editing its result in place (payload, signature byte, index), the second's value compared before/after (decoded-values-aliased-*), then a third decode. "
                        "distinct_nontrivial = cases on which model and implementation agreed and the Spec held on the implementation's result")
     ctx.cov["trusted_base"] += ["harness/vaa/vaa_verif_test.go (generator, canonical rendering) and Whv/Driver/Vaa.lean (comparison)",
                                 "Go runtime: bytes.Reader / encoding/binary semantics are exercised, not modelled"]
